@@ -391,8 +391,50 @@ def gamma(pred: Val, a: Val, b: Val) -> Val:
         q_, ar, br = pred, a.r, b.r
         if isinstance(q_, P) and q_.op == 'not':
             q_, ar, br = q_.args[0], br, ar
-        return Num(br + sym.A('gamma', q_, ar - br, sym.C(0)), a.length, a.kind if a.kind == b.kind else 'unknown')
+        if a.length is not None:
+            q_ = _pointwise(q_)         # inside an element-wise value the test is read at the element's own position
+        # each branch is read with the test settled the way that selects it:  (p ? a : b) == b|¬p + γ(p, a|p - b|¬p, 0)
+        els = _under(br, q_, False)
+        diff = _under(ar, q_, True) - els
+        if diff.is_zero():
+            return Num(els, a.length, a.kind if a.kind == b.kind else 'unknown')
+        return Num(els + sym.A('gamma', q_, diff, sym.C(0)), a.length, a.kind if a.kind == b.kind else 'unknown')
     return Gam(pred, a, b)
+
+
+def _pointwise(q: Val) -> Val:
+    """a predicate over element-wise arrays as the predicate on element $i (extents dropped, duplicate conjuncts removed)"""
+    if isinstance(q, P):
+        args = []
+        for a_ in q.args:
+            if isinstance(a_, Num) and a_.length is not None:
+                args.append(Num(a_.r))
+            elif isinstance(a_, P):
+                args.append(_pointwise(a_))
+            else:
+                args.append(a_)
+        if q.op in ('and', 'or'):
+            uniq = []
+            for a_ in args:
+                if not any(veq(a_, b_) for b_ in uniq):
+                    uniq.append(a_)
+            return uniq[0] if len(uniq) == 1 else P(q.op, *uniq)
+        return P(q.op, *args)
+    return q
+
+
+def _under(r: Rat, q: Val, truth: bool) -> Rat:
+    """`r` with every conditional atom on the predicate q (or its negation) resolved, q being known to be `truth`"""
+    mapping = {}
+    for at in sym.all_atoms(r):
+        if sym.ATOMS.head(at) != 'gamma':
+            continue
+        p_, x_, y_ = sym.ATOMS.args(at)
+        if veq(p_, q):
+            mapping[at] = _under(x_ if truth else y_, q, truth)
+        elif isinstance(p_, P) and p_.op == 'not' and veq(p_.args[0], q):
+            mapping[at] = _under(y_ if truth else x_, q, truth)
+    return sym.subst(r, mapping) if mapping else r
 
 
 def minmax_atom(head: str, rs) -> Rat:
